@@ -80,9 +80,11 @@ class YowLayer(object):
 
     def toLower(self, data):
         self.lock.acquire()
-        if self.__lower:
-            self.__lower.send(data)
-        self.lock.release()
+        try:
+            if self.__lower:
+                self.__lower.send(data)
+        finally:
+            self.lock.release()
 
     def emitEvent(self, yowLayerEvent):
         if self.__upper and not self.__upper.onEvent(yowLayerEvent):
